@@ -8,6 +8,7 @@ import (
 	"math/big"
 	"math/rand/v2"
 	"sync"
+	"sync/atomic"
 
 	"github.com/onflow/crypto"
 
@@ -723,10 +724,125 @@ func C05(run *mon.Run) {
 	}
 	// ---- produced objects round-trip
 	c05RoundTrips(run, r, cv)
+	// ---- the decoders as pure functions under parallel use
+	c05Concurrent(run, r)
 	for _, d := range []string{"bls:DecodePrivateKey", "bls:DecodePublicKey", "bls:DecodePublicKeyCompressed", "p256:DecodePrivateKey", "p256:DecodePublicKey", "p256:DecodePublicKeyCompressed", "secp256k1:DecodePrivateKey", "secp256k1:DecodePublicKey", "secp256k1:DecodePublicKeyCompressed"} {
 		run.Require(run.Counter(d+".accepted") > 0 && run.Counter(d+".rejected") > 0, "decoder did not both accept and reject: "+d)
 	}
 	run.Sample(map[string]any{"g1_cases": len(g1cases), "g2_cases": len(g2cases), "example_g2": mon.Hex(g2cases[len(g2cases)/2].b), "example_kind": g2cases[len(g2cases)/2].kind})
+}
+
+// c05Concurrent: decoders share no object with their caller, so servers call them from many goroutines
+// at once. A table of accepted and rejected inputs per (algorithm, decoder), with the verdict and the
+// re-encoding each one gets when decoded alone, is replayed by 16 goroutines in tight loops: every
+// verdict and re-encoding must be what the sequential pass gave (the sequential verdicts themselves
+// are judged against the reference by the legs above).
+func c05Concurrent(run *mon.Run, r *rand.Rand) {
+	type entry struct {
+		dec  int // 0 private, 1 public, 2 public compressed
+		alg  crypto.SigningAlgorithm
+		in   []byte
+		ok   bool
+		back []byte
+	}
+	decode := func(e *entry) (bool, []byte) {
+		switch e.dec {
+		case 0:
+			k, err := crypto.DecodePrivateKey(e.alg, e.in)
+			if err != nil {
+				return false, nil
+			}
+			return true, k.Encode()
+		case 1:
+			k, err := crypto.DecodePublicKey(e.alg, e.in)
+			if err != nil {
+				return false, nil
+			}
+			return true, k.Encode()
+		default:
+			k, err := crypto.DecodePublicKeyCompressed(e.alg, e.in)
+			if err != nil {
+				return false, nil
+			}
+			return true, k.EncodeCompressed()
+		}
+	}
+	var table []*entry
+	for _, alg := range []crypto.SigningAlgorithm{crypto.ECDSAP256, crypto.ECDSASecp256k1, BLS} {
+		for i := 0; i < 6; i++ {
+			sk, err := crypto.GeneratePrivateKey(alg, mon.RandBytes(r, 32))
+			if err != nil {
+				continue
+			}
+			pk := sk.PublicKey()
+			variants := func(b []byte) [][]byte {
+				out := [][]byte{append([]byte{}, b...)}
+				for j := 0; j < 3; j++ {
+					out = append(out, flipBit(b, r.IntN(8*len(b))))
+				}
+				out = append(out, mon.RandBytes(r, len(b)), b[:len(b)-1], make([]byte, len(b)))
+				return out
+			}
+			for _, v := range variants(sk.Encode()) {
+				table = append(table, &entry{dec: 0, alg: alg, in: v})
+			}
+			for _, v := range variants(pk.Encode()) {
+				table = append(table, &entry{dec: 1, alg: alg, in: v})
+			}
+			for _, v := range variants(pk.EncodeCompressed()) {
+				table = append(table, &entry{dec: 2, alg: alg, in: v})
+			}
+		}
+	}
+	nOK := 0
+	for _, e := range table {
+		e.ok, e.back = decode(e)
+		if e.ok {
+			nOK++
+		}
+	}
+	iters := run.Pick(4000, 60000)
+	var wg sync.WaitGroup
+	var bad atomic.Int64
+	var first atomic.Value
+	for g := 0; g < 16; g++ {
+		wg.Add(1)
+		go func(g int) {
+			defer wg.Done()
+			defer run.Protect("c05 concurrent")
+			rr := run.Rand(fmt.Sprintf("concurrent-%d", g))
+			// half of the goroutines stay on one (algorithm, decoder) so that equal code paths overlap
+			var mine []*entry
+			for _, e := range table {
+				if g%2 == 0 || (e.dec == g/2%3 && e.alg == []crypto.SigningAlgorithm{crypto.ECDSAP256, crypto.ECDSASecp256k1, BLS}[g/6%3]) {
+					mine = append(mine, e)
+				}
+			}
+			if len(mine) == 0 {
+				mine = table
+			}
+			for i := 0; i < iters && bad.Load() == 0; i++ {
+				e := mine[rr.IntN(len(mine))]
+				if e.alg == BLS && e.dec != 0 && i%8 != 0 {
+					continue // BLS public key decoding costs a subgroup check: fewer of them
+				}
+				ok, back := decode(e)
+				if ok != e.ok || !bytes.Equal(back, e.back) {
+					bad.Add(1)
+					first.CompareAndSwap(nil, fmt.Sprintf("decoder %d of algorithm %s on input %x: alone it gives (accepted=%v, re-encoding %x), among 16 goroutines decoding in parallel it gave (accepted=%v, re-encoding %x)", e.dec, e.alg, e.in, e.ok, e.back, ok, back))
+				}
+			}
+			run.Eval(iters)
+		}(g)
+	}
+	wg.Wait()
+	if bad.Load() > 0 {
+		m, _ := first.Load().(string)
+		run.Violate("C05:concurrent-decoding-differs", m, map[string]any{"table": len(table)})
+	}
+	run.Count("concurrent.table-entries", len(table))
+	run.Count("concurrent.table-accepted", nOK)
+	run.Shape("concurrent-decoding")
 }
 
 func c05RoundTrips(run *mon.Run, r *rand.Rand, cv ref.Conv) {
